@@ -32,4 +32,5 @@ done <<LIST
 24 ./dt/ TestDemo24SetEqualReadsOtherUnlocked -race
 25 ./pubsub/ TestDemo25QueueBlockingAddThenClose
 26 ./srv/ TestDemo26StartReturnsNilOnce
+28 ./dt/ TestDemo28IsSortedAdjacentPairs
 LIST
